@@ -257,6 +257,18 @@ def run_shard(item):
                     o = case("variable-in-object", tstr, "query($e: %s) { %s(x: %s) }" % (doc.type_to_str(fdef.type), g, S.value_str(obj)),
                              {"e": v[k0]})
                     obs_group.append(("variable-in-object", o))
+            # 4c. a single (un-bracketed) object literal holding a variable, given where a list of input objects is declared
+            if (valid_value and core[0] == "list" and core[1] in (("named", base), ("nn", ("named", base))) and base in ("P", "Q", "R")
+                    and isinstance(v, dict) and v):
+                td = schema.type(base)
+                k0 = next(iter(v))
+                fdef = td.field(k0)
+                rest = [(k, inputs.to_literal(schema, td.field(k).type, x)) for k, x in v.items() if k != k0]
+                if fdef is not None and all(r is not None for _, r in rest) and (v[k0] is not None or fdef.type[0] != "nn"):
+                    obj = ObjV(tuple([(k0, Var("e"))] + rest))
+                    o = case("variable-in-single-object-for-list", tstr,
+                             "query($e: %s) { %s(x: %s) }" % (doc.type_to_str(fdef.type), g, S.value_str(obj)), {"e": v[k0]})
+                    obs_group.append(("variable-in-single-object-for-list", o))
             if len(obs_group) > 1:
                 out["counts"]["relational_groups"] += 1
                 first = obs_group[0][1]
